@@ -90,6 +90,10 @@ def _tokenizer(pkg, cname):
             continue
         try:
             fn = pkg.expanded("Species", name, keep=(cname,))
+            # a scanner OBJECT that lives inside the tokenizer (a small class of the module holding the text and the matches) is the
+            # bundle of its fields: its methods are read in place
+            from ..normalize import inline_local_objects
+            fn = inline_local_objects(fn, lambda c: pkg.classes[c].node if c in pkg.classes and pkg.classes[c].file == SP and c != "Species" else None)
         except Exception:
             continue
         calls = [c for c in ast.walk(fn) if isinstance(c, ast.Call) and isinstance(c.func, ast.Attribute)]
@@ -673,4 +677,18 @@ MUTANTS += [
 BENIGN += [
     {"name": "set-pseudo-symbols-copied-first", "file": SP, "old": _SET_PS,
      "new": "        fresh = [p for p in pelements]\n        cls._known_pseudoelements.clear()\n        cls._known_pseudoelements.extend(list(fresh))\n"},
+]
+
+# ---- the scan kept in a helper OBJECT local to the tokenizer (normalize.inline_local_objects) ---------------------------------------
+_SCANNER = ("class _Scan:\n    def __init__(self, text):\n        self.rest = text\n        self.hits = []\n\n    def _blank(self, lo, hi):\n        self.rest = self.rest[:lo] + %s + self.rest[hi:]\n\n"
+            "    def feed(self, pattern):\n        for hit in re.finditer(pattern, self.rest):\n            self.hits.append(hit)\n            self._blank(hit.start(), hit.end())\n\n"
+            "    def ordered(self):\n        return sorted(self.hits, key=lambda h: h.start())\n\n\n")
+_SCAN_OBJ = [{"file": SP, "old": _SCAN, "new": "        scan = _Scan(parsename)\n        for c in components:\n            scan.feed(c)\n        matches = scan.ordered()\n"}]
+BENIGN += [
+    {"name": "scan-kept-in-a-local-helper-object", "edits": _SCAN_OBJ + [{"file": SP, "old": "class Species:\n", "new": _SCANNER % "\" \" * (hi - lo)" + "class Species:\n"}]},
+]
+MUTANTS += [
+    {"name": "helper-object-cuts-the-span-out", "edits": _SCAN_OBJ + [{"file": SP, "old": "class Species:\n", "new": _SCANNER % "\"\"" + "class Species:\n"}], "rules": ["R2"]},
+    {"name": "helper-object-fed-unsorted-symbols", "edits": _SCAN_OBJ + [{"file": SP, "old": "class Species:\n", "new": _SCANNER % "\" \" * (hi - lo)" + "class Species:\n"},
+                                                                       {"file": SP, "old": "components = sorted(elements + symbols, key=len, reverse=True)", "new": "components = elements + symbols"}], "rules": ["R1"]},
 ]
